@@ -5,32 +5,41 @@ namespace XC.C09
     `s20 key=<32B> nonce=<hex> src=<hex>`  → `<out>` / `panic`                salsa20.XORKeyStream
     `hs key=<32B> in=<16B> c=<16B>`        → `<32B>`                          salsa.HSalsa20
     `c208 in=<64B>`                        → `<64B>`                          salsa.Core208 -/
-def handle (line : String) : String :=
+def handle1 (line : String) : String :=
   let o := parseOp line
   if o.cmd == "xks" then
     match o.hex? "key", o.hex? "ctr", o.hex? "src" with
     | some key, some ctr, some src =>
       if key.length ≠ 32 || ctr.length ≠ 16 then "bad-op" else
-      s!"{toHex (genericXORKeyStream key ctr src)} {toHex ctr}"
+      s!"{toHex (genericXORKeyStream key ctr src)} {toHex ctr} mut=-"
     | _, _, _ => "bad-op"
   else if o.cmd == "s20" then
     match o.hex? "key", o.hex? "nonce", o.hex? "src" with
     | some key, some nonce, some src =>
       if key.length ≠ 32 then "bad-op" else
       match salsa20XORKeyStream key nonce src with
-      | none => "panic"
-      | some out => toHex out
+      | none => "panic mut=-"
+      | some out => toHex out ++ " mut=-"
     | _, _, _ => "bad-op"
   else if o.cmd == "hs" then
     match o.hex? "key", o.hex? "in", o.hex? "c" with
     | some key, some inp, some c =>
       if key.length ≠ 32 || inp.length ≠ 16 || c.length ≠ 16 then "bad-op" else
-      toHex (hsalsa20Go inp key c)
+      toHex (hsalsa20Go inp key c) ++ " mut=-"
     | _, _, _ => "bad-op"
   else if o.cmd == "c208" then
     match o.hex? "in" with
-    | some inp => if inp.length ≠ 64 then "bad-op" else toHex (core208Go inp)
+    | some inp => if inp.length ≠ 64 then "bad-op" else toHex (core208Go inp) ++ " mut=-"
     | none => "bad-op"
   else "bad-op"
+
+/-- a line is one op, or a session `sess <op> ## <op> ## …` (the harness runs the ops of a session on the
+    same key / counter / nonce / in / out arrays with contents changed in place; the model is a function of
+    contents, so a session is just the list of answers). `mut=` (caller memory written outside the
+    documented output) is always `-` for the model. -/
+def handle (line : String) : String :=
+  if line.startsWith "sess " then
+    " ## ".intercalate (((line.drop 5).toString.splitOn " ## ").map handle1)
+  else handle1 line
 
 end XC.C09
